@@ -22,80 +22,7 @@ import Cellml.C02.Lemmas
 namespace Cellml.Props.C02
 open _root_.C02 Cellml
 
-/-! ## 1. The generated operator table means what MathML 2 says -/
-
-/-- the class the GENERATED table gives for `tag` computes what MathML 2 says `tag` means -/
-def entrySound (tag : String) : Bool :=
-  match Gen.mathmlOps.lookup tag, mmlMeaning tag with
-  | some c, some m => syMeaning c == m
-  | _, _ => false
-
-macro "table_entry " n:ident t:str : command => `(theorem $n : entrySound $t = true := by decide +kernel)
-
-table_entry table_abs "abs"
-table_entry table_and "and"
-table_entry table_arccos "arccos"
-table_entry table_arccosh "arccosh"
-table_entry table_arccot "arccot"
-table_entry table_arccoth "arccoth"
-table_entry table_arccsc "arccsc"
-table_entry table_arccsch "arccsch"
-table_entry table_arcsec "arcsec"
-table_entry table_arcsech "arcsech"
-table_entry table_arcsin "arcsin"
-table_entry table_arcsinh "arcsinh"
-table_entry table_arctan "arctan"
-table_entry table_arctanh "arctanh"
-table_entry table_ceiling "ceiling"
-table_entry table_cos "cos"
-table_entry table_cosh "cosh"
-table_entry table_cot "cot"
-table_entry table_coth "coth"
-table_entry table_csc "csc"
-table_entry table_csch "csch"
-table_entry table_eq "eq"
-table_entry table_exp "exp"
-table_entry table_exponentiale "exponentiale"
-table_entry table_false "false"
-table_entry table_floor "floor"
-table_entry table_geq "geq"
-table_entry table_gt "gt"
-table_entry table_infinity "infinity"
-table_entry table_leq "leq"
-table_entry table_ln "ln"
-table_entry table_lt "lt"
-table_entry table_max "max"
-table_entry table_min "min"
-table_entry table_neq "neq"
-table_entry table_not "not"
-table_entry table_notanumber "notanumber"
-table_entry table_or "or"
-table_entry table_pi "pi"
-table_entry table_plus "plus"
-table_entry table_sec "sec"
-table_entry table_sech "sech"
-table_entry table_sin "sin"
-table_entry table_sinh "sinh"
-table_entry table_tan "tan"
-table_entry table_tanh "tanh"
-table_entry table_times "times"
-table_entry table_true "true"
-table_entry table_xor "xor"
-
-/-- KNOWN FINDING (rem-sign): `rem ↦ sympy.Mod`; MathML's rem has the sign of the dividend, Mod that of the divisor -/
-theorem table_rem_is_Mod : Gen.mathmlOps.lookup "rem" = some "Mod" := by decide +kernel
-theorem table_rem_differs : entrySound "rem" = false := by decide +kernel
-theorem rem_differs_from_mod (I : Interp) :
-    Meaning.rem.apply I [.num (-7), .num 3] = some (.num (-1)) ∧
-    Meaning.mod.apply I [.num (-7), .num 3] = some (.num 2) := by
-  constructor <;> (simp only [Meaning.apply]; decide +kernel)
-
-/-- the key set of the table is exactly the 50 elements whose meaning is written down above, no duplicates -/
-theorem table_keys :
-    (Gen.mathmlOps.map (·.1)).length = 50 ∧
-    (Gen.mathmlOps.all fun p => (mmlMeaning p.1).isSome && Gen.mathmlOps.lookup p.1 == some p.2) = true ∧
-    (mmlTable.all fun p => (Gen.mathmlOps.lookup p.1).isSome) = true := by
-  refine ⟨?_, ?_, ?_⟩ <;> decide +kernel
+/-! ## 1. The generated operator table (per-tag theorems: `Cellml.C02.Table`) -/
 
 /-- every entry except `rem`: the meaning of the class is the meaning of the element -/
 theorem table_sound (tag c : String) (h : Gen.mathmlOps.lookup tag = some c) (hrem : tag ≠ "rem") :
@@ -108,23 +35,6 @@ theorem table_sound (tag c : String) (h : Gen.mathmlOps.lookup tag = some c) (hr
   rcases ht1.2 with hr | hm
   · exact absurd hr hrem
   · exact hm
-
-/-- the n-ary (chained) relations are exactly MathML 2's: eq, leq, lt, geq, gt -/
-theorem nary_relations_sound : Gen.naryRelations = ["eq", "geq", "gt", "leq", "lt"] := by decide +kernel
-
-def expectedHandlers : List (String × String) := [
-  ("apply", "_apply_handler"), ("bvar", "_bvar_handler"), ("ci", "_ci_handler"), ("cn", "_cn_handler"),
-  ("degree", "_degree_handler"), ("diff", "_diff_handler"), ("divide", "_divide_handler"), ("log", "_log_handler"),
-  ("logbase", "_logbase_handler"), ("math", "transpile"), ("minus", "_minus_handler"),
-  ("otherwise", "_otherwise_handler"), ("piece", "_piece_handler"), ("piecewise", "_piecewise_handler"),
-  ("power", "_power_handler"), ("root", "_root_handler")]
-
-/-- the explicit handlers: exactly these 16 keys, each bound to the method of its own name -/
-theorem handler_keys_sound :
-    Gen.handlerKeys.length = 16 ∧
-    (expectedHandlers.all fun p => Gen.handlerKeys.lookup p.1 == some p.2) = true ∧
-    (Gen.handlerKeys.all fun p => (Gen.mathmlOps.lookup p.1).isNone) = true := by
-  refine ⟨?_, ?_, ?_⟩ <;> decide +kernel
 
 /-! ## 2. Transpilation preserves meaning -/
 
